@@ -16,6 +16,13 @@ RULE = ("mint: real dispensation BeginBlocker on the real keeper/bank, block his
         "providers joining/leaving, one provider blocked (its share is burned). restart: full SifchainApp on a persistent DB through "
         "BeginBlock/EndBlock/Commit, counter started 1..6 blocks below the cap, two adjacent reward periods, application object re-opened from "
         "the DB after 1/3 of the blocks. dispmsgs: the C11 message histories with the total supply compared across every message. "
+        "rwedits: the reward-period list EDITED while a period runs, through real MsgAddRewardPeriodRequest messages (ValidateBasic, clp.NewHandler on a "
+        "CacheContext, delivered in a block before its EndBlocker): a running period with mod 2..10 cut between two distribution blocks (accumulator "
+        "non-zero) by a replacing set starting at the cut / 1, 2, 5 blocks later, by a set [B, A, C] whose first period overtakes A and outlasts it, by "
+        "the same overlapping set from the beginning, by switching rewards off and adding a period later; plus the F27 histories (tag ...midflight): an "
+        "overlapping period listed AFTER the running one taking over when that one ends between two distribution blocks, and an accepted edit changing "
+        "the running period's own allocation / mod / end, preceded by two directed small-number histories of that kind; per-period totals kept per "
+        "(start,end,allocation,mod) of the period the keeper reports as current. "
         "non-trivial = a block that created coins / an accepted message")
 TRUSTED_BASE = [
     "Lean 4.33.0 kernel; axioms propext, Classical.choice, Quot.sound (audited per theorem on every run)",
